@@ -269,7 +269,7 @@ impl C12 {
         let o = std::process::Command::new(crate::bb::n2_binary()).args(["-j", "1", "nosuchtarget_zz"]).stdin(std::process::Stdio::null()).output();
         out.evals += 1;
         match o {
-            Err(e) => out.viols.push(Viol::new("C12", "cannot-run-n2", format!("cannot run n2: {}", e))),
+            Err(e) => out.viols.push(Viol::new("INFRA", "cannot-run-n2", format!("cannot run n2: {}", e))),
             Ok(o) => {
                 use std::os::unix::process::ExitStatusExt;
                 let so = String::from_utf8_lossy(&o.stdout).into_owned();
